@@ -182,3 +182,282 @@ def engine_remove(model, info, art):
     if calls != [("install", RE)] or s not in RE.suspenders:
         bad.append(f"install_suspender gave calls {calls}")
     return ("confirmed" if bad else "contradicted"), "; ".join(bad) or "install / remove on the engine as specified"
+
+
+# ------------------------------------------------------------------------------------------------ C11: histories of a real suspender
+def _history_search(clauses, depth=6, sleep=1.5):
+    """bounded exhaustive search over histories of a real SuspendBoolHigh (bad / good signal values, the loop running a queued
+    callback, a timer firing - oldest or newest first -, remove, install) against the clauses of contracts/c11_hist.py;
+    -> list of (history, what) violations (first one per clause)"""
+    import functools
+    import types
+    from bluesky import suspenders as S_
+
+    found = {}
+
+    class World:
+        def __init__(self, eager, slow=False, running=True):
+            w = self
+            self.eager = eager
+            self.running = running    # what RE.state.is_running says
+            self.cb_errors = []       # exceptions raised by callbacks on the loop (asyncio logs them and carries on)
+            self.slow = slow          # the loop thread is busy: it does not create the event within the 0.1 s the suspender waits for it
+            self.failed = False       # ... the signal callback raised the licensed RuntimeError and left (no event, tripped)
+            self.queue, self.timers, self.requests, self.made, self.setlog, self.released_want = [], [], [], [], [], []
+            self.in_timer = None
+            self.bad = []
+
+            class Ev(asyncio_real.Event):
+                def __init__(self_e):
+                    super().__init__()
+                    w.made.append(self_e)
+                    self_e.nset = 0
+
+                def set(self_e):
+                    self_e.nset += 1
+                    w.setlog.append(self_e)
+                    if w.in_timer is None or w.in_timer != sleep:
+                        w.bad.append(("settle", f"an event was set {'outside a timer' if w.in_timer is None else f'by a timer armed with {w.in_timer} s'} (settle time {sleep} s)"))
+                    if self_e is w.s._ev and w.s._tripped and w.s.RE is not None:
+                        w.bad.append(("live", "the release set the event the suspender holds while it is tripped"))
+                    super().set()
+            self.Ev = Ev
+
+            class Handle:
+                def __init__(self_h, cb, args, delay=None):
+                    self_h.cb, self_h.args, self_h.delay, self_h.cancelled = cb, args, delay, False
+
+                def cancel(self_h):
+                    self_h.cancelled = True
+
+            class Loop:
+                def call_soon_threadsafe(self_l, cb, *args):
+                    h = Handle(cb, args)
+                    if isinstance(cb, functools.partial):
+                        w.requests.append(cb)
+                        if getattr(cb.func, "__self__", None) is not w.RE or cb.func.__name__ != "request_suspend":
+                            w.bad.append(("req", f"unexpected partial handed to the loop: {cb!r}"))
+                    elif w.eager or (getattr(cb, "__name__", "") == "really_make_the_event" and not w.slow):
+                        cb(*args)
+                    else:
+                        w.queue.append(h)
+                    return h
+                call_soon = call_soon_threadsafe
+
+                def call_later(self_l, delay, cb, *args):
+                    h = Handle(cb, args, delay)
+                    w.timers.append(h)
+                    return h
+            self.loop = Loop()
+
+            class State:
+                is_running = running
+
+            class RE:
+                _loop = self.loop
+                loop = self.loop
+                state = State()
+
+                def request_suspend(self_r, fut, **kw):
+                    w.bad.append(("req", "request_suspend was called directly from the signal's thread"))
+            self.RE = RE()
+            self.sig = _Sig()
+            self.s = S_.SuspendBoolHigh(self.sig, sleep=sleep, pre_plan="PRE", post_plan="POST", tripped_message="beam dump")
+
+        def step(self, a):
+            s = self.s
+            held = s._ev
+            if a == "bad":
+                try:
+                    s(1)
+                except RuntimeError:
+                    if not self.slow:
+                        raise
+                    self.failed = True
+            elif a == "good":
+                s(0)
+                if s.RE is not None and held is not None:
+                    self.released_want.append(held)
+            elif a == "cb":
+                h = self.queue.pop(0)
+                if not h.cancelled:
+                    try:
+                        h.cb(*h.args)
+                    except Exception as e:     # noqa
+                        self.cb_errors.append(e)
+            elif a in ("timer", "timer-last"):
+                h = self.timers.pop(0 if a == "timer" else -1)
+                if not h.cancelled:
+                    self.in_timer = h.delay
+                    try:
+                        h.cb(*h.args)
+                    except Exception as e:     # noqa
+                        self.cb_errors.append(e)
+                    finally:
+                        self.in_timer = None
+            elif a == "remove":
+                if s.RE is not None and held is not None:
+                    self.released_want.append(held)
+                s.remove()
+            elif a == "install":
+                s.install(self.RE)
+
+        def menu(self):
+            s = self.s
+            m = ["bad", "good"]
+            if self.queue:
+                m.append("cb")
+            if self.timers:
+                m.append("timer")
+            if len(self.timers) > 1:
+                m.append("timer-last")
+            m.append("remove" if s.RE is not None else "install")
+            return m
+
+        def violations(self, final=False):
+            s = self.s
+            out = list(self.bad)
+            inst, ev, tr = s.RE is not None, s._ev, s._tripped
+            if not (inst and tr and ev is None):
+                self.failed = False
+            if self.failed:
+                return out
+            requested = {id(p.args[0].__self__) for p in self.requests if p.args and hasattr(p.args[0], "__self__")}
+            if not self.running:
+                # an idle / paused engine: nothing may be requested; the events are handed over by get_futures at the next plan start
+                if self.requests:
+                    out.append(("req", f"{len(self.requests)} suspension(s) requested although the engine is not running"))
+                requested = {id(e) for e in self.made}
+            if inst and tr and ev is None:
+                out.append(("inv1", "installed and tripped but no event is held"))
+            if inst and tr and not any(id(e) in requested and not e.is_set() for e in self.made):
+                out.append(("live", "installed and tripped, but every event a suspension was requested for has been released (or none was requested)"))
+            if ev is not None and (ev.is_set() or id(ev) not in requested):
+                out.append(("inv2", f"the held event is {'already set' if ev.is_set() else 'not handed to the engine'}"))
+            if inst and ev is not None and not tr:
+                out.append(("inv4", "an event is held although the suspender is not tripped (a renewed trip will not request a suspension)"))
+            if not inst and (tr or ev is not None):
+                out.append(("inv3", f"not installed but tripped={tr}, event held={ev is not None}"))
+            if ev is not None and not any(ev is m for m in self.made):
+                out.append(("frame", "the held event is not one the suspender made"))
+            for p in self.requests:
+                ok = (len(p.args) == 1 and getattr(p.args[0], "__name__", "") == "wait" and any(p.args[0].__self__ is m for m in self.made)
+                      and p.keywords.get("pre_plan") == "PRE" and p.keywords.get("post_plan") == "POST" and "beam dump" in str(p.keywords.get("justification")))
+                if not ok:
+                    out.append(("req", f"request_suspend{p.args!r} {p.keywords!r} does not carry the event's wait and the suspender's plans / justification"))
+            if self.running and len(self.requests) != len(self.made):
+                out.append(("req", f"{len(self.made)} events were made with the engine running but {len(self.requests)} suspensions requested"))
+            if final:
+                for e in self.cb_errors:
+                    out.append(("once", f"a callback of the release machinery raised {e!r}"))
+                for e in self.made:
+                    want = sum(1 for x in self.released_want if x is e)
+                    if e.nset != (1 if want else 0):
+                        out.append(("once", f"an event held at {want} recoveries / removals was set {e.nset} times"))
+            return out
+
+    import asyncio as asyncio_real
+    shim = types.SimpleNamespace(**{k: getattr(asyncio_real, k) for k in dir(asyncio_real) if not k.startswith("__")})
+    saved = S_.asyncio
+    import io
+    import contextlib
+    try:
+        for eager, running in ((False, True), (True, True), (False, False)):
+            def run(hist):
+                w = World(eager, running=running)
+                shim.Event = w.Ev
+                S_.asyncio = shim
+                w.s.install(w.RE)
+                for a in hist:
+                    w.step(a)
+                return w
+
+            def rec(hist):
+                w = run(hist)
+                for kind, what in w.violations():
+                    if kind in clauses and kind not in found:
+                        found[kind] = (list(hist), what + (" [callbacks run eagerly]" if eager else "") + ("" if running else " [engine not running]"))
+                # drain: everything in flight runs, then the final clauses
+                w2 = run(hist)
+                while w2.queue or w2.timers:
+                    w2.step("cb" if w2.queue else "timer")
+                for kind, what in w2.violations(final=True):
+                    if kind in clauses and kind not in found:
+                        found[kind] = (list(hist) + ["(all callbacks and timers run)"], what + (" [callbacks run eagerly]" if eager else "") + ("" if running else " [engine not running]"))
+                if len(hist) >= maxd[0] or all(c in found for c in clauses):
+                    return
+                for a in w.menu():
+                    rec(hist + [a])
+            maxd = [0]
+            with contextlib.redirect_stdout(io.StringIO()):
+                for d in range(1, depth + 1):       # shortest histories first
+                    maxd[0] = d
+                    rec([])
+                    if found:
+                        break
+            if found:
+                break
+        if not found:
+            # last resort: a busy loop thread (every trip waits 0.1 s for its event in vain) - short histories only
+            def run(hist):          # noqa: F811
+                w = World(False, slow=True)
+                shim.Event = w.Ev
+                S_.asyncio = shim
+                w.s.install(w.RE)
+                for a in hist:
+                    w.step(a)
+                return w
+
+            def rec_slow(hist):
+                w = run(hist)
+                for kind, what in w.violations():
+                    if kind in clauses and kind not in found:
+                        found[kind] = (list(hist), what + " [busy loop thread: the event is not created within 0.1 s]")
+                if len(hist) >= 3 or found:
+                    return
+                for a in w.menu():
+                    rec_slow(hist + [a])
+            with contextlib.redirect_stdout(io.StringIO()):
+                rec_slow([])
+    finally:
+        S_.asyncio = saved
+    return found
+
+
+_H_CLAUSES = [("installed and tripped => the suspender holds an event", ("inv1",)),
+              ("the held event is unreleased and its wait was handed", ("inv2",)),
+              ("not installed => not tripped", ("inv3",)),
+              ("an event is held only while the suspender is tripped", ("inv4",)),
+              ("a step keeps the held event", ("frame",)),
+              ("a trip that makes an event requests", ("req",)),
+              ("a release in flight never sets the event the suspender holds", ("live",)),
+              ("an event is set only by a timer armed", ("settle",)),
+              ("exactly the event that was held is set, once", ("once",)),
+              ("RuntimeError only when the event could not be created", ("raise",))]
+
+
+def history(model, info, art):
+    """C11 suspender histories: the clause of the failed obligation, searched for on a real SuspendBoolHigh over all histories up to 6 steps"""
+    ob = art.get("obligation", "")
+    clauses = next((c for key, c in _H_CLAUSES if key in ob), None)
+    if clauses is None:
+        clauses = tuple(c for _, cs in _H_CLAUSES for c in cs)
+    if clauses == ("raise",):
+        from bluesky.suspenders import SuspendBoolHigh
+        import io
+        import contextlib
+        RE = _engine()
+        s = SuspendBoolHigh(_Sig(), sleep=0)
+        s.install(RE)
+        try:
+            with contextlib.redirect_stdout(io.StringIO()):
+                s(1)
+                s(0)
+                s(1)
+        except Exception as e:     # noqa
+            return "confirmed", f"a signal value raised {e!r} although the loop is alive"
+        return "contradicted", "no exception from signal values on a live loop"
+    found = _history_search(clauses)
+    if found:
+        return "confirmed", "; ".join(f"history {' > '.join(h)}: {what}" for h, what in found.values())
+    return "contradicted", "no history of up to 6 steps on a real SuspendBoolHigh violates the clause"
